@@ -1,5 +1,7 @@
 (* C06 — scaling direction and taint rate follow the utilisation bands.  Theorems only. *)
-From Esc Require Import Examples proofs.ScanTaint proofs.ScanRun proofs.ScanRunTheorems.
+From Coq Require Import Reals.
+From Esc Require Import Examples proofs.FloatProofs proofs.FloatBands proofs.ScanTaint proofs.ScanRun proofs.ScanRunTheorems.
+Open Scope Z_scope.
 
 (* For every scan with non-negative rates slow <= fast (what validation admits) and a non-negative minimum: when the
    group is unlocked, within its node-count bounds, not below its minimum and the percentages are defined, with
@@ -16,6 +18,19 @@ Theorem c06_bands : forall now gdry api g a nodes pods,
   check_C06_group x (r_calls (scan_of now gdry api g a nodes pods)) = true.
 Proof. exact group_passes_C06. Qed.
 Print Assumptions c06_bands.
+
+(* the float bands are the rational bands except within a relative 2^-50 of a threshold: for request total r, capacity C
+   (int64 range, as MilliValue() delivers them) and an integer threshold L, an exact utilisation 100 r / C at most
+   L (1 - 2^-50) is computed as strictly below L, and one of at least L (1 + 2^-50) as strictly above L; on the knife-edge
+   itself the bit-exact model decides (proofs/FloatBands.v, on top of the percentage error bound of C13) *)
+Theorem c06_exact_link_below : forall r C L, (1 <= r < 2 ^ 63)%Z -> (1 <= C < 2 ^ 63)%Z -> (1 <= L < 2 ^ 53)%Z ->
+  (100 * IZR r / IZR C <= IZR L * (1 - eps50))%R -> flt (pct r C) (of_Z L) = true.
+Proof. exact band_below. Qed.
+Print Assumptions c06_exact_link_below.
+Theorem c06_exact_link_above : forall r C L, (1 <= r < 2 ^ 63)%Z -> (1 <= C < 2 ^ 63)%Z -> (1 <= L < 2 ^ 53)%Z ->
+  (IZR L * (1 + eps50) <= 100 * IZR r / IZR C)%R -> fgt (pct r C) (of_Z L) = true /\ flt (pct r C) (of_Z L) = false.
+Proof. exact band_above. Qed.
+Print Assumptions c06_exact_link_above.
 
 (* the override of the two triggers: at least one node, never negative *)
 Theorem c06_triggers : forall e o mn mx us cap unt tainted d0,
